@@ -263,6 +263,26 @@ def run(chk: Check):
                           f"closed-shell problem ({'symmetric' if sym else 'non-symmetric'} Cholesky matrices): restricted and unrestricted "
                           f"sampler runs differ: energies {outs['rhf'][0]} vs {outs['uhf'][0]}, max weight difference {dw}, exp_h1 "
                           f"difference {dh}", {"symmetric_chol": sym})
+    # C0b. sampler level, fields drawn INSIDE the sampler: the same seed must give the same block energy, weights and walkers
+    # for every batch count of the propagator and of the trial (a draw whose layout depends on n_batch changes the run)
+    for wt in ("rhf", "uhf"):
+        ref = None
+        for nb in (1, 2, 4):
+            sysd = runlevel.make_system(np.random.default_rng(45 + chk.seed), norb=4, nelec=(2, 2) if wt == "rhf" else (2, 1), nchol=3,
+                                        trial_kind=wt, walker_type=wt, n_walkers=4, dt=0.03, vscale=0.4, n_batch=nb)
+            pd0 = runlevel.init_prop_data(sysd, 78)
+            smp = S(n_prop_steps=3, n_ene_blocks=2, n_sr_blocks=1, n_blocks=1)
+            o = runlevel.call_entry(sysd, smp, {"ad_mode": None, "orbital_rotation": True, "do_sr": True}, pd0)
+            wk = o["prop_data"]["walkers"]
+            flat = np.concatenate([np.asarray(x).reshape(4, -1) for x in (wk if isinstance(wk, (list, tuple)) else [wk])], axis=1)
+            got = (o["energy"], np.asarray(o["prop_data"]["weights"]), flat)
+            chk.case(("sampler-n_batch", wt, nb))
+            chk.traces += 1
+            if ref is None:
+                ref = got
+            elif abs(got[0] - ref[0]) > 1e-10 * max(1, abs(ref[0])) or rel(got[1], ref[1]) > 1e-10 or rel(got[2], ref[2]) > 1e-10:
+                chk.violation(f"sampler:{wt}:n_batch", f"sampler.propagate_phaseless ({wt} walkers, same seed): n_batch={nb} gives energy {got[0]} and "
+                              f"weights {got[1].tolist()}, n_batch=1 gives {ref[0]} and {ref[1].tolist()}", {"walker_type": wt, "n_batch": nb})
     combos = [({}, (2, 2, 1)), (dict(ad_mode="forward"), (2, 1, 2))] if not big else \
         [({}, (2, 2, 2)), (dict(ad_mode="forward"), (2, 1, 2)), (dict(ad_mode="reverse", orbital_rotation=False), (2, 2, 1)),
          (dict(ad_mode="forward", do_sr=False), (3, 2, 1))]
